@@ -76,7 +76,16 @@ def run_concrete(fn, params, witness):
     except EngineSignal as e:
         return "engine", str(e), c, e
     except Exception as e:  # noqa
+        if not _raised_in_repo(e):
+            return "harness", "exception raised outside the code under test: %r" % e, c, e
         return "exc", "unexpected exception: %s" % type(e).__name__, c, e
+
+
+def _raised_in_repo(e):
+    """an escaping exception counts against the code under test only if the innermost Python
+    frame of its traceback belongs to the repository (otherwise it is a harness / model error)"""
+    tb = traceback.extract_tb(e.__traceback__)
+    return bool(tb) and os.path.realpath(tb[-1].filename).startswith(REPO)
 
 
 def run_job(args):
@@ -139,6 +148,10 @@ def run_job(args):
             except RecursionError as e:
                 res["inconclusive"] = "recursion limit in harness: %s" % e
             except Exception as e:  # an exception escaping the harness = violation candidate
+                if not _raised_in_repo(e):
+                    res["harness_error"] = "exception raised outside the code under test:\n" + traceback.format_exc(limit=-8)
+                    eng.end()
+                    break
                 m = None
                 try:
                     m = eng.path_model()
